@@ -94,6 +94,17 @@ func (vc *VC) nlfreeOfFormat(format ssa.Value, args ssa.Value) (Term, bool) {
 		if mi, ok := a.(*ssa.MakeInterface); ok {
 			inner = mi.X
 		}
+		// an error value under %w / %v / %s renders as its Error() text
+		if verb == 'w' || verb == 's' || verb == 'v' {
+			if types.Identical(a.Type(), errorType) || (inner != a && types.Identical(inner.Type(), errorType)) {
+				conds = append(conds, sx("nlfree", sx("errtext", vc.v(a))))
+				continue
+			}
+			if a.Type() != nil && types.IsInterface(a.Type()) && types.Identical(inner.Type(), errorType) {
+				conds = append(conds, sx("nlfree", sx("errtext", vc.v(inner))))
+				continue
+			}
+		}
 		switch verb {
 		case 'q', 'd', 'x', 'X', 'o', 'b', 't', 'p', 'U', 'e', 'E', 'f', 'F', 'g', 'G', 'T':
 			continue // digits, quoted text, type names: never a raw line break
@@ -127,3 +138,5 @@ func (vc *VC) nlfreeOfFormat(format ssa.Value, args ssa.Value) (Term, bool) {
 	}
 	return And(conds...), true
 }
+
+var errorType = types.Universe.Lookup("error").Type()
